@@ -217,6 +217,28 @@ func propC18(w *World, r *Report) {
 		}
 	}
 	if spentI == nil || writeI == nil || len(recvs) != 1 {
+		// a receive inside a select: with a default branch the reader no longer waits for a pool buffer
+		for _, b := range hc.Blocks {
+			for _, in := range b.Instrs {
+				sel, ok := in.(*ssa.Select)
+				if !ok {
+					continue
+				}
+				for _, st := range sel.States {
+					isPool := false
+					for _, c := range chans {
+						if chanOf(st.Chan) == c.val {
+							isPool = true
+						}
+					}
+					if st.Dir == types.RecvOnly && isPool && !sel.Blocking {
+						r.Fail("W3", "the reader obtains every buffer by a blocking receive from the pool of capacity-many buffers", w.InstrPos(sel),
+							"non-blocking receive (select with default) on the buffer pool: when the pool is empty the reader goes on with a buffer that is not one of the capacity-many pool buffers; the writer's hand-back can then block for ever (frames never flushed, file never closed) ", "")
+						return
+					}
+				}
+			}
+		}
 		r.Unknown("W1", "channel roles", w.Pos(hc.Pos()), "could not identify the spent / write channels")
 		return
 	}
